@@ -35,7 +35,20 @@ Besides the write-path x spec-vocabulary drivers and the history drivers:
   * drv_*_resets: clear / popitem / empty construction / removal of a field /
     replacement by an empty value when the value that cannot be defaulted sits
     1..3 levels below the container the call is made on (nested Dict fields,
-    noneable Dict fields, List-of-Dict fields), at every level of the tree.
+    noneable Dict fields, List-of-Dict fields), at every level of the tree;
+  * drv_boilerplate_*: schemas that are *derived from a live value*
+    (pg.boilerplate_class freezes the fields of a new class at the values of a
+    template object, also boilerplate of boilerplate).  The template stays an
+    ordinary mutable value: every write path into the content of every kind of
+    container-valued field of the template (list, list of dict/list, dict with
+    and without nested schema, dynamic keys, object, Any/Tuple/Union holding
+    containers, a value copied from a class default), at every depth, must leave
+    the instances of the derived classes (created before and after the write) in
+    a state their class schema accepts: frozen fields equal the frozen value =
+    the template's value when the class was derived (the model), the class
+    schema re-applied to a plain copy accepts it; the template and instances of
+    the base class keep satisfying the base schema.  And the instances of a
+    boilerplate class go through every object write path like any other class.
 
 Class definitions / spec objects of a subject are shared between the runs of
 that subject for speed; every failure is re-confirmed on a completely fresh
@@ -1257,7 +1270,7 @@ def _value_class(lab):
   return 'invalid-value'
 
 
-def dict_ops(sub, fd, present, focus=False, fine=False):
+def dict_ops(sub, fd, present, focus=False, fine=False, partner=None):
   """All dict/object write paths aimed at field `f` (spec fd) and friends.
 
   present: plain image of x before (to know what is missing / present).
@@ -1270,7 +1283,7 @@ def dict_ops(sub, fd, present, focus=False, fine=False):
   ops = []
   img = present[1] if isinstance(present, tuple) else present
 
-  b = _OpList(sub, img, ops)
+  b = _OpList(sub, img, ops, partner=partner or ('g', '2', 2))
   add, paths = b.add, b.paths
 
   # 1. field f: valid and invalid values (a value that merely lacks required
@@ -1433,12 +1446,15 @@ def _json_lossy(s):
   return '(' in s and 'Inner(' not in s   # tuples do not survive pg.to_json -> value is not the sample
 
 
-def _run_dict_like(rec, sub, fd, key, repeat=True, **opts):
+def _run_dict_like(rec, sub, fd, key, repeat=True, ops_filter=None, **opts):
   probe = Run(rec, sub)
   if probe.dead:
     return
   present = plain(probe.x)
-  for op in dict_ops(sub, fd, present, **opts):
+  ops = dict_ops(sub, fd, present, **opts)
+  if ops_filter is not None:
+    ops = ops_filter(ops)
+  for op in ops:
     if op.get('result') is _PARTIAL:
       # result is an explicitly partial value: check it against a partial model
       psub = Subject(sub.kind, sub.setup, sub.root_desc, sub.x_desc, partial=True)
@@ -1878,8 +1894,306 @@ def drv_dict_histories(tier, seed):
   return rec.result()
 
 
+# ---------------------------------------------------------------------------
+# Schemas derived from a live value: pg.boilerplate_class.
+# ---------------------------------------------------------------------------
+
+_BP_HEAD = ('import pyglove as pg\nT=pg.typing;M=pg.MISSING_VALUE\n'
+            'def I():return T.Int(min_value=0,max_value=5)\n')
+_BP_INNER = ("@pg.members([('p',I()),('q',T.Str(default='d')),('l',T.List(I(),default=[]))])\n"
+             "class Inner(pg.Object):\n  pass\n")
+_BP_RAW = '''def raw(v):
+ if isinstance(v,pg.Dict):return{k:raw(c)for k,c in v.sym_items()}
+ if isinstance(v,pg.List):return[raw(c)for c in v.sym_values()]
+ if isinstance(v,tuple):return tuple(raw(c)for c in v)
+ return v
+'''
+
+
+def _bp_list_writes(acc, e):
+  """Every write path into the pg.List `acc` (e: source of a valid element)."""
+  return [f'{acc}.append({e})', f'{acc}.insert(0,{e})', f'{acc}.extend([{e}])', f'{acc}.__iadd__([{e}])',
+          f'{acc}.__imul__(2)', f'{acc}[0]={e}', f'{acc}[-1]={e}', f'{acc}[0:1]=[{e},{e}]', f'del {acc}[0]',
+          f'{acc}.pop()', f'{acc}.remove({acc}[0])', f'{acc}.reverse()', f'{acc}.clear()', f'{acc}[0]=M',
+          f'{acc}.rebind({{0:{e}}})', f'{acc}.rebind({{0:pg.Insertion({e})}})', f'{acc}.rebind({{9:{e}}})',
+          f'{acc}.rebind({{0:M}})']
+
+
+def _bp_dict_writes(acc, k, v):
+  """Every write path into key k of the pg.Dict `acc` (v: source of a valid value)."""
+  return [f'{acc}[{k!r}]={v}', f'{acc}.{k}={v}', f'{acc}.update({{{k!r}:{v}}})', f'{acc}.__ior__({{{k!r}:{v}}})',
+          f'{acc}.rebind({{{k!r}:{v}}})', f'{acc}.rebind({k}={v})', f'{acc}.pop({k!r},None)', f'del {acc}[{k!r}]',
+          f'{acc}[{k!r}]=M', f'{acc}.clear()']
+
+
+def _bp_object_writes(acc, k, v):
+  return [f'{acc}.rebind({k}={v})', f'{acc}.rebind({{{k!r}:{v}}})', f'{acc}.{k}={v}',
+          f'{acc}.sym_init_args[{k!r}]={v}', f'{acc}.sym_init_args.update({{{k!r}:{v}}})']
+
+
+def _bp_path_writes(path, v):
+  """Writes addressed from the template root."""
+  return [f't.rebind({{{path!r}:{v}}})', f't.rebind(lambda k,v:({v}) if str(k)=={path!r} else v)']
+
+
+def _bp_whole_writes(v2):
+  """Replacement / removal of the whole field value."""
+  return [f't.rebind(f={v2})', f't.f={v2}', f't.sym_init_args["f"]={v2}', 't.rebind(f=M)', 't.f=M']
+
+
+def _bp_fields(tier):
+  """Field kinds of the template: (kind, spec source, template value source or
+  None = taken from the class default, model image of that value, another valid
+  value, writes into the content of the template's field)."""
+  lw, dw, ow, pw = _bp_list_writes, _bp_dict_writes, _bp_object_writes, _bp_path_writes
+  inner_img = ('Inner', {'p': 1, 'q': 'd', 'l': [1]})
+  pq = "T.Dict([('p',I()),('q',T.Str(default='d'))])"
+  out = [
+      ('list', 'T.List(I(),min_size=1,max_size=3)', '[1, 2]', [1, 2], '[3]',
+       lw('t.f', '3') + pw('f[0]', '3') + pw('f[2]', '3')),
+      ('list-of-dict', f'T.List({pq},max_size=2)', "[{'p': 1, 'q': 'd'}]", [{'p': 1, 'q': 'd'}], "[{'p': 3}]",
+       lw('t.f', "{'p': 2}") + dw('t.f[0]', 'p', '2') + pw('f[0].p', '2') + pw('f[0].q', "'e'")),
+      ('list-of-list', 'T.List(T.List(I(),max_size=2),max_size=2)', '[[1]]', [[1]], '[[3]]',
+       lw('t.f', '[2]') + lw('t.f[0]', '2') + pw('f[0][0]', '2')),
+      ('noneable-list', 'T.List(I()).noneable()', '[1, 2]', [1, 2], '[3]',
+       lw('t.f', '3') + pw('f[0]', '3') + ['t.rebind(f=None)']),
+      ('list-from-class-default', 'T.List(I(),default=[1, 2])', None, [1, 2], '[3]',
+       lw('t.f', '3') + pw('f[0]', '3')),
+      ('dict', pq, "{'p': 1, 'q': 'd'}", {'p': 1, 'q': 'd'}, "{'p': 3}",
+       dw('t.f', 'p', '2') + dw('t.f', 'q', "'e'") + pw('f.p', '2')),
+      ('dict-holding-list', "T.Dict([('p',I()),('l',T.List(I()))])", "{'p': 1, 'l': [1]}", {'p': 1, 'l': [1]},
+       "{'p': 3, 'l': []}", dw('t.f', 'p', '2') + dw('t.f', 'l', '[2]') + lw('t.f.l', '2') + pw('f.l[0]', '2')),
+      ('dynamic-key-dict', "T.Dict([(T.StrKey('^x.*'),T.List(I()))])", "{'x1': [1]}", {'x1': [1]}, "{'x3': []}",
+       dw('t.f', 'x1', '[2]') + dw('t.f', 'x2', '[2]') + lw('t.f.x1', '2') + pw('f.x1[0]', '2')),
+      ('untyped-dict', 'T.Dict()', "{'k': [1]}", {'k': [1]}, "{'j': 1}",
+       dw('t.f', 'k', '[2]') + dw('t.f', 'z', '1') + lw('t.f.k', '2') + pw('f.k[0]', '2')),
+      ('object', 'T.Object(Inner)', 'Inner(p=1,l=[1])', inner_img, 'Inner(p=3)',
+       ow('t.f', 'p', '2') + ow('t.f', 'l', '[2]') + lw('t.f.l', '2') + pw('f.p', '2') + pw('f.l[0]', '2')),
+      ('any-holding-list', 'T.Any()', "[1, {'k': 2}]", [1, {'k': 2}], "'s'",
+       lw('t.f', '3') + dw('t.f[1]', 'k', '3') + pw('f[1].k', '3')),
+      ('any-holding-object', 'T.Any()', 'Inner(p=1,l=[1])', inner_img, "'s'",
+       ow('t.f', 'p', '2') + lw('t.f.l', '2') + pw('f.l[0]', '2')),
+      ('tuple-holding-list', 'T.Tuple([T.Int(),T.List(I())])', '(1, [1])', (1, [1]), '(3, [])',
+       lw('t.f[1]', '2') + pw('f[1][0]', '2')),
+      ('union-holding-list', 'T.Union([T.Bool(),T.List(I(),max_size=2)])', '[1]', [1], 'True',
+       lw('t.f', '2') + pw('f[0]', '2')),
+      ('scalar', 'I()', '1', 1, '3', []),
+  ]
+  # Case-id class: a field whose spec is a Dict with a schema is frozen member by
+  # member (one mechanism, whatever the members are); every other value is
+  # frozen as a whole.
+  # The other ids name the type of the frozen value (what has to be copied).
+  def idc(k, s):
+    if s.startswith('T.Dict(['):
+      return 'schema-dict'
+    return ('object' if 'object' in k else 'tuple' if 'tuple' in k else 'untyped-dict' if 'dict' in k.replace('-of-dict', '')
+            else 'list' if 'list' in k else k)
+  return [dict(kind=k, idc=idc(k, s), spec=s, v=v, img=img, v2=v2, writes=w + _bp_whole_writes(v2),
+               inner='Inner' in s + str(v) + v2)
+          for k, s, v, img, v2, w in out]
+
+
+def _bp_setup(e, full):
+  """Base class, an instance b0 of it, the template t, class B derived from t
+  with instance x, class B2 derived from a template of B with instance x2
+  (template partially bound: B2 = B).  A fully bound template is an instance
+  of a subclass Sub of Base whose schema is itself derived from Base's
+  (inherited; a Dict field re-declared as a bare T.Dict() that extends it)."""
+  args = ([] if e['v'] is None else [f"f={e['v']}"]) + (['r=1'] if full else [])
+  inst = '' if full else 'r=1'
+  sub = ("@pg.members([('f',T.Dict())])\n" if e['idc'] == 'schema-dict' else '') + 'class Sub(Base):\n  pass\n'
+  return ((_BP_INNER if e['inner'] else '')
+          + f"@pg.members([('f',{e['spec']}),('r',I())])\nclass Base(pg.Object):\n  pass\n"
+          + f"b0=Base(f={e['v2']},r=2)\n"
+          + (sub if full else '')
+          + f"t={'Sub' if full else 'Base.partial'}({','.join(args)})\n"
+          + f"B=pg.boilerplate_class('B',t)\nx=B({inst})\n"
+          + ("B2=pg.boilerplate_class('B2',B.partial())\n" if full else 'B2=B\n') + f"x2=B2({inst})\n")
+
+
+def _bp_witness(e, full, writes, target):
+  inst = '' if full else 'r=1'
+  run = ('with pg.allow_writable_accessors(True):\n'
+         f' for w in {writes!r}:\n  try:exec(w)\n  except Exception:pass\n') if writes else ''
+  if target == 'instance':
+    vsrc = e['v'] if e['v'] is not None else repr(e['img'])
+    check = (f'for o in (x,x2,B({inst}),B2({inst})):\n'
+             f' assert pg.eq(o.f,{vsrc}) and o.r==1,o.sym_init_args\n'
+             ' type(o).sym_fields.apply({k:raw(v)for k,v in o.sym_items()})')
+  elif target == 'base':
+    check = ('assert pg.eq(b0,b)\n'
+             'Base.sym_fields.apply({k:raw(v)for k,v in b0.sym_items()})')
+    run = 'b=b0.clone(deep=True)\n' + run
+  else:
+    check = 'type(t).sym_fields.apply({k:raw(v)for k,v in t.sym_items()},allow_partial=True)'
+  return _BP_HEAD + _BP_RAW + _bp_setup(e, full) + run + check
+
+
+def _bp_run(e, full, writes):
+  """Builds everything afresh, runs the writes on the template; returns
+  (env, changed) where changed tells whether the template's image changed."""
+  env = {}
+  _exec(_BP_HEAD + _bp_setup(e, full), env)
+  env['b0_img'] = plain(env['b0'])
+  t_img = plain(env['t'])
+  for w in writes:
+    before = plain(env['t'])
+    try:
+      with pg.allow_writable_accessors(True):
+        _exec(w, env)
+    except Exception as ex:  # pylint: disable=broad-except
+      # An ordinary write on an ordinary object (all its paths are the subject
+      # of the other drivers); here: a failed write leaves the template as is.
+      if plain(env['t']) != before:
+        env['t_failed'] = f'failed write {w} ({type(ex).__name__}) changed the template'
+  return env, plain(env['t']) != t_img
+
+
+def _bp_violations(env, e, full):
+  """[(target, message)]: what the statement demands after any history of
+  writes on the template."""
+  out = []
+  inst = {} if full else {'r': 1}
+  try:
+    env['y'], env['y2'] = env['B'](**inst), env['B2'](**inst)
+  except Exception as ex:  # pylint: disable=broad-except
+    out.append(('instance', f'creating an instance of the derived class raised {type(ex).__name__}: {str(ex)[:200]}'))
+  want = {'f': e['img'], 'r': 1}
+  for name in ('x', 'x2', 'y', 'y2'):
+    o = env.get(name)
+    if o is None:
+      continue
+    cls = type(o).__name__
+    when = 'created before the writes' if name[0] == 'x' else 'created after the writes'
+    img = plain(o)
+    bad = None
+    if img != (cls, want):
+      bad = (f'holds {img[1]!r}; its fields are frozen at the template\'s values when the class was derived, '
+             f'{want!r}')
+    else:
+      bad = _check_real(o, T.Object(type(o)), False)
+    if bad:
+      out.append(('instance', f'instance of {cls} ({when}): {bad}'))
+      break
+  b0 = env['b0']
+  bad = None if plain(b0) == env['b0_img'] else f'changed from {env["b0_img"]!r} to {plain(b0)!r}'
+  bad = bad or _check_real(b0, T.Object(env['Base']), False)
+  if bad:
+    out.append(('base', f'instance of the base class (f={e["v2"]}): {bad}'))
+  bad = env.get('t_failed') or _check_real(env['t'], T.Object(env['Base']), True)
+  if bad:
+    out.append(('template', f'the template: {bad}'))
+  return out
+
+
+def drv_boilerplate_template_isolation(tier, seed):
+  """The schema of a boilerplate class is derived from a live template object
+  that stays mutable: no write on the template may put the instances of the
+  derived classes at odds with their (frozen) schema."""
+  fields = _bp_fields(tier)
+  rec = Recorder(
+      'C03', 'pg.boilerplate_class: instances keep satisfying the frozen class schema whatever happens to the template',
+      scope=f'{len(fields)} kinds of template field value ({", ".join(e["kind"] for e in fields)}) x template partially bound (instance of Base) / '
+            'fully bound (instance of a subclass of Base) x classes B = boilerplate(template) and (template fully bound) B2 = boilerplate(B.partial()); every write path into the '
+            'template field content at every depth (list: append/insert/extend/+=/*=/item/slice/del/pop/remove/reverse/clear/'
+            'MISSING/rebind replace+insert+append+delete; dict: []=/attr/update/|=/rebind/pop/del/MISSING/clear; object: '
+            'rebind/attr/sym_init_args; path rebind and rebinder from the template root; replacement and removal of the whole '
+            'field), single writes from a fresh build and histories of 2 writes (all in thorough; quick: template partially '
+            'bound: all single writes + 8 seeded pairs per kind, fully bound: 6 seeded single writes + 3 pairs); after each history: instances created before and after it equal the model of the frozen '
+            'values and are accepted (mapped to themselves) by their class schema, the base-class instance and the template '
+            'still satisfy the base schema')
+  rnd = rng(seed, 'c03-boilerplate')
+  for e in fields:
+    for full in (False, True):
+      mode = 'full' if full else 'partial'
+      singles = [(w,) for w in e['writes']]
+      pairs = [(a, b) for a in e['writes'] for b in e['writes']]
+      if tier == 'quick':
+        pairs = rnd.sample(pairs, min(3 if full else 8, len(pairs)))
+        if full:
+          singles = rnd.sample(singles, min(6, len(singles)))
+      histories = [()] + singles + pairs
+      for h in histories:
+        try:
+          env, changed = _bp_run(e, full, h)
+        except Exception as ex:  # pylint: disable=broad-except
+          rec.case(f'boilerplate.class-creation/raised:{e["idc"]}-field', (e['kind'], mode, h), False,
+                   f'deriving the classes from a valid template raised {type(ex).__name__}: {str(ex)[:200]}',
+                   _BP_HEAD + _bp_setup(e, full))
+          break
+        found = dict(_bp_violations(env, e, full))
+        stage = 'template-write' if h else 'class-creation'
+        for target, cid in (('instance', f'boilerplate.{stage}/frozen-{e["idc"]}-field'),
+                            ('base', f'boilerplate.{stage}/base-class-instance'),
+                            ('template', f'boilerplate.{stage}/template-state')):
+          rec.case(cid, (e['kind'], mode, h), target not in found,
+                   f'{e["kind"]} field f: {e["spec"]}, template {"fully" if full else "partially"} bound, after {list(h)} on '
+                   f'the template: {found.get(target)}',
+                   _bp_witness(e, full, list(h), target), nontrivial=(changed or not h))
+  return rec.result()
+
+
+def boilerplate_subject(base, fd, v_src, mode):
+  """x: instance of Obj = pg.boilerplate_class('Obj', ObjBase.partial(f=v)):
+  f frozen at v, g frozen at its default 1, h frozen at 7, r required."""
+  others = lambda g: [('g', g), ('h', frozen(d_int(0, 9), '7')), ('r', d_int(0, 5))]
+  bd = d_object('ObjBase', [('f', base)] + others(with_default(d_int(), '1')))
+  od = d_object('Obj', [('f', fd)] + others(frozen(d_int(), '1')))
+  od.pre = (bd.pre + f"tmpl=ObjBase.partial(f={v_src})\nObj=pg.boilerplate_class('Obj',tmpl)\n"
+            "class ObjOther(pg.Object):\n  pass\n")
+  partial = mode == 'partial'
+  setup = od.pre + ('root=x=Obj.partial()' if partial else 'root=x=Obj(r=1)')
+  return Subject('object', setup, od, od, partial=partial, scope_partial=(mode == 'scope'))
+
+
+def _bp_ops(ops):
+  """The op alphabet of an object, for an instance of a boilerplate class: own
+  case ids; writes into the content of a frozen container field are left to
+  drv_spec_modifiers_* (the same code, nothing specific to the derived class)."""
+  return [dict(o, cid='boilerplate-' + o['cid']) for o in ops if '.child-write/' not in o['cid']]
+
+
+def drv_boilerplate_object_writes(tier, seed):
+  """An instance of a boilerplate class under every object write path."""
+  del seed
+  bases = [(b, v) for b, v in _modifier_bases(tier) if not b.name.startswith('Object(')]
+  rec = Recorder(
+      'C03', 'instance of a pg.boilerplate_class: every write path',
+      scope=f'class Obj = boilerplate_class(ObjBase.partial(f=V)) for ObjBase(f: SPEC, g: Int default, h: frozen Int, r: required '
+            f'Int[0,5]); {len(bases)} SPECs (Int, Str regex, Bool, Float, Enum, List, Tuple, Dict, Union, Any) with V a valid '
+            'value, and SPEC.noneable() with V = None; all object write paths of drv_object_writes aimed at f (now frozen at V), '
+            'g (frozen at the default), h, r and undeclared keys x one sample per input class (all samples in thorough); modes '
+            'full, partial (quick: the noneable chain for every third SPEC, mode partial for every third SPEC); single steps '
+            'from a valid state')
+  for bi, (base, v) in enumerate(bases):
+    for label, none, frz in (('frozen', False, v), ('noneable+frozen-at-None', True, 'None'), ('noneable+frozen', True, v)):
+      if label == 'noneable+frozen' and tier == 'quick':
+        continue
+      if (none or base.name.startswith('Union')) and frz[0] in '[{':
+        continue      # pyglove cannot build a list/dict default of a noneable / Union spec (see modifier_vocabulary)
+      if none and base.noneable:
+        continue      # Any: already noneable
+      if frz == 'None' and hasattr(base, 'fields') and not hasattr(base, 'cls_name'):
+        # boilerplate_class itself crashes (AttributeError) on a template whose
+        # noneable Dict-with-schema field is None: no class, no state to judge.
+        continue
+      if tier == 'quick' and none and bi % 3:
+        continue
+      fd = modified(base, none=none, freeze=frz)
+      fd.fragile_default = False
+      if tier == 'quick':
+        fd = _one_per_class(fd)
+      b = modified(base, none=True) if none else base
+      for mode in (('full',) if tier == 'quick' and (none or bi % 3 != 1) else ('full', 'partial')):
+        sub = boilerplate_subject(b, fd, frz, mode)
+        _run_dict_like(rec, sub, fd, (fd.name, 'boilerplate', mode), repeat=(tier != 'quick'), ops_filter=_bp_ops,
+                       fine=True, partner=('r', '2', 2))
+  return rec.result()
+
+
 DRIVERS = [drv_list_writes, drv_list_histories, drv_dict_writes, drv_object_writes, drv_dict_histories,
-           drv_spec_modifiers_dict, drv_spec_modifiers_object, drv_dict_resets, drv_object_resets]
+           drv_spec_modifiers_dict, drv_spec_modifiers_object, drv_dict_resets, drv_object_resets,
+           drv_boilerplate_template_isolation, drv_boilerplate_object_writes]
 
 
 def replay(rec):
